@@ -176,3 +176,45 @@ def install_path_prefix(ctx):
         if hasattr(mod, 'path_inside_dir'):
             mod.path_inside_dir = pid
     ctx.extra['contracts_backend'] = {backend_name(): 1}
+
+
+def install_find_top(ctx):
+    """find_top_level_manifest == vf.model.findtop.find_top on every call (also
+    the calls the CLI makes in other checks' workloads)."""
+    import gemato.find_top_level as ft
+    import gemato.cli as gcli
+    from vf.model import findtop
+
+    orig = ft.find_top_level_manifest
+    if getattr(orig, '_vf_wrapped', False):
+        return
+
+    def wrapper(path='.', allow_xdev=True, allow_compressed=False):
+        result = orig(path, allow_xdev=allow_xdev,
+                      allow_compressed=allow_compressed)
+        try:
+            res = findtop.find_top(path, allow_xdev, allow_compressed)
+        except Exception as exc:
+            ctx.counters['contract:find_top:model_error'] += 1
+            return result
+        if res.unconstrained:
+            ctx.counters['contract:find_top:skipped'] += 1
+            return result
+        ctx.counters['contract:find_top'] += 1
+        got = None if result is None else os.path.realpath(result)
+        want = {None if a is None else os.path.realpath(a) for a in res.answers}
+        if got not in want:
+            ctx.violation('contract-find-top',
+                          'find_top_level_manifest(%r, allow_xdev=%r, '
+                          'allow_compressed=%r) = %r, model says %r' % (
+                              path, allow_xdev, allow_compressed, result,
+                              sorted(map(str, want))),
+                          {'kind': 'contract', 'path': path,
+                           'cwd': os.getcwd()},
+                          {'levels': res.levels[:8]})
+        return result
+
+    wrapper._vf_wrapped = True
+    wrapper.__wrapped__ = orig
+    ft.find_top_level_manifest = wrapper
+    gcli.find_top_level_manifest = wrapper
